@@ -184,7 +184,8 @@ type ProxyInst struct {
 	Dials    *DialLog
 	Tr       *http.Transport
 	cancel   context.CancelFunc
-	done     chan error
+	done     chan struct{} // closed when Run has returned
+	RunErr   error
 	stopOnce sync.Once
 }
 
@@ -361,8 +362,8 @@ func StartProxy(o ProxyOpts) (*ProxyInst, error) {
 	}
 	addrs, _ := hp.Addr()
 	ctx, cancel := context.WithCancel(context.Background())
-	pi := &ProxyInst{HP: hp, Addr: addrs[0], Reg: reg, Dials: dl, Tr: tr, cancel: cancel, done: make(chan error, 1)}
-	go func() { pi.done <- hp.Run(ctx) }()
+	pi := &ProxyInst{HP: hp, Addr: addrs[0], Reg: reg, Dials: dl, Tr: tr, cancel: cancel, done: make(chan struct{})}
+	go func() { pi.RunErr = hp.Run(ctx); close(pi.done) }()
 	// Warm-up: martian initialises itself (and writes fields of the shared http.Transport) in the
 	// Serve goroutine. Connect once and wait until the listener's accept counter shows it: the
 	// atomic counter read orders everything the harness does afterwards (e.g. CloseIdleConnections
@@ -393,7 +394,7 @@ func (p *ProxyInst) Stop() {
 
 // Cancel triggers shutdown without waiting; Done delivers Run's result.
 func (p *ProxyInst) Cancel()            { p.cancel() }
-func (p *ProxyInst) Done() <-chan error { return p.done }
+func (p *ProxyInst) Done() <-chan struct{} { return p.done }
 
 // Gather returns name{labels} -> value for all samples of the registry.
 func (p *ProxyInst) Gather() map[string]float64 {
